@@ -6,7 +6,7 @@
    interleaving), any number of simulators, tiers, steps. *)
 From Coq Require Import ZArith List Bool Arith.
 Import ListNotations.
-From MV Require Import Time.Spec Sched.Timing Sched.Inv Sched.Init Sched.Wle Sched.Main Sched.Guards Sched.Final Static.Groups Static.Connect Static.Build Sched.Plane Sched.Link Sched.Certify Sched.Later.
+From MV Require Import Time.Spec Sched.Timing Sched.Inv Sched.Init Sched.Wle Sched.Main Sched.Guards Sched.Final Static.Groups Static.Connect Static.Build Sched.Plane Sched.Link Sched.Certify Sched.Later Sched.GenView Gen.SchedulerFns Sched.SchedTie.
 
 (* once a consumer j has begun a step at t, no simulator k feeding it (over a connection with delay d, the
    minimum over all connections k -> j) is ever stepped at a time u whose delayed output time is at or before t *)
@@ -58,3 +58,10 @@ Theorem C01_later_provider_steps_are_later : forall st, static_ok st -> forall s
   forall k d c, In (k, d) (indel st j) -> In c (cands (sr k)) -> tlt t (act c d) = true.
 Proof. exact later_candidates_are_later. Qed.
 Print Assumptions C01_later_provider_steps_are_later.
+
+(* tie to the source: the progress against which the guard is evaluated is computed by advance_progress; the function as
+   regenerated from mosaik/scheduler.py on every run (Gen/SchedulerFns.v) is the model's new_progress *)
+Theorem C01_generated_advance_progress_is_the_model : forall st s i, (1 <= depth st i)%nat ->
+  advance_progress (view st s i) (nexts (s i)) (cur (s i)) None (until st) (mkI 1 1 (repeat 0 (depth st i))) = new_progress st s i.
+Proof. exact tie_advance_progress. Qed.
+Print Assumptions C01_generated_advance_progress_is_the_model.
